@@ -43,6 +43,8 @@ func runC03(w *core.World, r *core.Report) {
 	r.Rule("R15", "in the target dispatcher the error of State.Next / State.Previous reaches the caller (a refused lateral move is no match)")
 	r.Rule("R14", "flag addressing loses no bits (C06 R9): a client flag index cannot wrap onto INMATCH, READIN or WAIT")
 	r.Rule("R13", "the pending code recorded after a run is that run's own result, on its success edge only (C08 R9): a failed run does not leave stale INCMP lines to match the next input")
+	r.Rule("R16", "an INCMP is skipped only for a recorded match or a mismatch with the input (no other early success return)")
+	r.Rule("R17", "the invalid-input message survives rendering: nothing on the render path stores Page.err")
 	r.Rule("R12", "the destructive code getter State.GetCode is called only by methods of DefaultEngine (code fetch, reset), never by diagnostics or other packages")
 	r.Rule("R11", "external code cannot clear INMATCH or READIN: every dynamic flag write is behind the write filter (C06 R1)")
 	r.Rule("R10", "State.Restart (which clears INMATCH, READIN and the recorded input) is called only by the engine's session restart")
@@ -200,6 +202,8 @@ func runC03(w *core.World, r *core.Report) {
 
 	checkCodeRecordedFromRun(w, r, "R13")
 	checkLateralErrorsReturned(w, r, "R15")
+	checkIncmpComplete(w, r, "R16", h, fIn, disp)
+	checkRenderKeepsErrorPrefix(w, r, "R17")
 	checkFlagAddressing(w, r, "R14")
 	// ---- R3 -----------------------------------------------------------------------------------
 	run := w.Func("vm", "(*Vm).Run")
